@@ -1,16 +1,17 @@
 #!/bin/bash
 # Create (or refresh) a private copy of /verif wired to a scratch worktree of /repo, so that seeded changes can be
 # evaluated without touching /repo or /verif/lean while proof agents read them.
-#   tools/mutcopy.sh            -> /tmp/verif_mut  +  /tmp/repo_mut
-# Then:  cd /tmp/verif_mut && git -C /tmp/repo_mut apply patch.diff && VERIF_REPO=/tmp/repo_mut ./check C10 ; git -C /tmp/repo_mut checkout -- .
+#   tools/mutcopy.sh            -> /tmp/verif_mut$S  +  /tmp/repo_mut$S
+# Then:  cd /tmp/verif_mut$S && git -C /tmp/repo_mut$S apply patch.diff && VERIF_REPO=/tmp/repo_mut$S ./check C10 ; git -C /tmp/repo_mut$S checkout -- .
 set -e
-git -C /repo worktree remove --force /tmp/repo_mut 2>/dev/null || true
-git -C /repo worktree add --detach /tmp/repo_mut HEAD -q
-mkdir -p /tmp/verif_mut
-rsync -a --delete --exclude .git /verif/ /tmp/verif_mut/
-sed -i 's#path = "/repo/lymui"#path = "/tmp/repo_mut/lymui"#' /tmp/verif_mut/harness/Cargo.toml
-sed -i 's#path = "/repo/js-macro"#path = "/tmp/repo_mut/js-macro"#' /tmp/verif_mut/harness_js/Cargo.toml
-sed -i 's#target-dir = "/verif/.cache/harness-js-target"#target-dir = "/tmp/verif_mut/.cache/harness-js-target"#' /tmp/verif_mut/harness_js/.cargo/config.toml
-sed -i 's#target-dir = "/verif/.cache/harness-target"#target-dir = "/tmp/verif_mut/.cache/harness-target"#' /tmp/verif_mut/harness/.cargo/config.toml
-rm -f /tmp/verif_mut/.cache/prepare.stamp
-echo "ready: /tmp/verif_mut (VERIF_REPO=/tmp/repo_mut)"
+S=${MUT_SUFFIX:-}
+git -C /repo worktree remove --force /tmp/repo_mut$S 2>/dev/null || true
+git -C /repo worktree add --detach /tmp/repo_mut$S HEAD -q
+mkdir -p /tmp/verif_mut$S
+rsync -a --delete --exclude .git /verif/ /tmp/verif_mut$S/
+sed -i "s#path = \"/repo/lymui\"#path = \"/tmp/repo_mut$S/lymui\"#" /tmp/verif_mut$S/harness/Cargo.toml
+sed -i "s#path = \"/repo/js-macro\"#path = \"/tmp/repo_mut$S/js-macro\"#" /tmp/verif_mut$S/harness_js/Cargo.toml
+sed -i "s#target-dir = \"/verif/.cache/harness-js-target\"#target-dir = \"/tmp/verif_mut$S/.cache/harness-js-target\"#" /tmp/verif_mut$S/harness_js/.cargo/config.toml
+sed -i "s#target-dir = \"/verif/.cache/harness-target\"#target-dir = \"/tmp/verif_mut$S/.cache/harness-target\"#" /tmp/verif_mut$S/harness/.cargo/config.toml
+rm -f /tmp/verif_mut$S/.cache/prepare.stamp
+echo "ready: /tmp/verif_mut$S (VERIF_REPO=/tmp/repo_mut$S)"
